@@ -60,6 +60,8 @@ class ISOTPConfig(BaseModel):
     @field_validator(
         "src_addr",
         "dst_addr",
+        "frame_txtime",
+        "tx_dl",
         "ext_address",
         "rx_ext_address",
         "tx_padding",
